@@ -282,6 +282,57 @@ Definition mult_rowrep (ps : lpmat) (ids : list bid) (x : vec) : vec :=
   fold_left (fun acc bx => if Qeq_bool (snd bx) 0 then acc else pad m (vscale (snd bx) (basis_col ps (fst bx))))
             (combine bind (pad m x)) (vzero m).
 
+(* The three defective ROW-representation branches as repaired by /verif/proposed_fixes/C05-*.diff (the plain branches of
+   the first two are unchanged):
+     getBasisInverseColReal:       rhs = 2^(r_k) e_index, x.scaleValue(j, colScaleExp(j)) for every column j, then
+                                   coef = -(unscaled row * x) for a basic slack and x_j for a basic column;
+     getBasisInverseTimesVecReal:  only the activity of the stored row is multiplied by 2^(-r_idx), not v_idx;
+     multBasis:                    dense accumulation  y += x_i * column,  with an "else" between the unscaled and the stored
+                                   column. *)
+Section GlueFixed.
+  Variable coSolve : vec -> vec.
+
+  Definition binv_col_rowrep_fixed (sc : bool) (r c : list Z) (ps : lpmat) (ids : list bid) (k : nat) : vec :=
+    let m := lm_rows ps in
+    let n := lm_ncols ps in
+    let bind := bind_rowrep m n ids in
+    if negb (is_row_basic ids k) then
+      map (fun b => if Z.eqb b (-1 - Z.of_nat k) then 1 else 0) bind
+    else
+      let index := row_pos ids k in
+      let x := if sc then dscale c (coSolve (vscale (pow2 (nth k r 0%Z)) (unit_vec n index)))
+               else coSolve (unit_vec n index) in
+      map (fun b =>
+             if (b <? 0)%Z then
+               let idx := Z.to_nat (-1 - b) in
+               if sc then - dot (lp_row_unscaled r c ps idx) x else - dot (lp_row ps idx) x
+             else vnth x (Z.to_nat b)) bind.
+
+  Definition binv_times_vec_rowrep_fixed (sc : bool) (r c : list Z) (ps : lpmat) (ids : list bid) (v : vec) : vec :=
+    let m := lm_rows ps in
+    let n := lm_ncols ps in
+    let bind := bind_rowrep m n ids in
+    let rowrhs := map (fun id => match id with
+                                 | BRow i => if sc then vnth v i * pow2 (nth i r 0%Z) else vnth v i
+                                 | BCol _ => 0
+                                 end) ids in
+    let y := coSolve rowrhs in
+    map (fun b =>
+           if (b <? 0)%Z then
+             let idx := Z.to_nat (-1 - b) in
+             let act := dot (lp_row ps idx) y in
+             vnth v idx - (if sc then act * pow2 (- nth idx r 0%Z) else act)
+           else
+             let idx := Z.to_nat b in
+             if sc then vnth y idx * pow2 (nth idx c 0%Z) else vnth y idx) bind.
+End GlueFixed.
+
+Definition mult_rowrep_fixed (sc : bool) (r c : list Z) (ps : lpmat) (ids : list bid) (x : vec) : vec :=
+  let bind := bind_rowrep (lm_rows ps) (lm_ncols ps) ids in
+  mulv (map (fun b => if (0 <=? b)%Z
+                      then (if sc then lp_col_unscaled r c ps (Z.to_nat b) else nth (Z.to_nat b) (lm_cols ps) [])
+                      else unit_vec (lm_rows ps) (Z.to_nat (-1 - b))) bind) x.
+
 (* multBasisTranspose, ROW representation *)
 Definition multT_rowrep (sc : bool) (r c : list Z) (ps : lpmat) (ids : list bid) (x : vec) : vec :=
   let bind := bind_rowrep (lm_rows ps) (lm_ncols ps) ids in
